@@ -41,6 +41,7 @@ func main() {
 	}
 	replace := map[string]string{}
 	stats := map[string]int{}
+	repoRoot = *repo
 
 	// 1. goat's own packages
 	var dirs []string
@@ -119,9 +120,53 @@ func mapTree(src, dst string, replace map[string]string) {
 
 type stubImporter struct{ pkgs map[string]*types.Package }
 
+// repoRoot: packages of goat's own module (the generated envelope types of gen/goatorepo
+// above all) are type-checked from source so that field accesses on their structs - envelopes
+// are shared between goroutines by by-reference transports - are recognised and hooked like
+// accesses to goat's own structs. Everything else is a stub.
+var repoRoot string
+
+const goatModule = "github.com/avos-io/goat/"
+
+var realPkgs = map[string]*types.Package{}
+
 func (s stubImporter) Import(path string) (*types.Package, error) {
 	if p, ok := s.pkgs[path]; ok {
 		return p, nil
+	}
+	if repoRoot != "" && strings.HasPrefix(path, goatModule+"gen/") {
+		if p, ok := realPkgs[path]; ok {
+			s.pkgs[path] = p
+			return p, nil
+		}
+		dir := filepath.Join(repoRoot, strings.TrimPrefix(path, goatModule))
+		if ents, err := os.ReadDir(dir); err == nil {
+			fset := token.NewFileSet()
+			var fs []*ast.File
+			pkgName := ""
+			for _, e := range ents {
+				n := e.Name()
+				if e.IsDir() || !strings.HasSuffix(n, ".go") || strings.HasSuffix(n, "_test.go") {
+					continue
+				}
+				f, err := parser.ParseFile(fset, filepath.Join(dir, n), nil, parser.SkipObjectResolution)
+				if err != nil {
+					continue
+				}
+				pkgName = f.Name.Name
+				fs = append(fs, f)
+			}
+			if len(fs) > 0 {
+				conf := types.Config{Importer: stubImporter{map[string]*types.Package{}}, Error: func(error) {}, FakeImportC: true}
+				p, _ := conf.Check(path, fset, fs, nil)
+				if p != nil {
+					p.SetName(pkgName)
+					realPkgs[path] = p
+					s.pkgs[path] = p
+					return p, nil
+				}
+			}
+		}
 	}
 	name := path[strings.LastIndex(path, "/")+1:]
 	p := types.NewPackage(path, name)
